@@ -54,9 +54,9 @@ def build(ck):
         _conversions(ck)
 
 
-def pairs(D, N):
+def pairs(D, N, order=None):
     """(name, channels, n_params, makeA, makeB, nonlinear factor(L,dt,p) or None, extra preconditions(p))"""
-    o = ORDER
+    o = ORDER if order is None else order
     out = []
     one = lambda L, dt, p: None
     vecD = lambda x: x * jnp.ones(D)
@@ -87,6 +87,16 @@ def pairs(D, N):
     out.append(("GeneralConvection<->Normalized", D, 4, lambda L, dt, p: G.GeneralConvectionStepper(D, L, N, dt, linear_coefficients=(p[0], p[1], p[2]), convection_scale=p[3], order=o),
                 lambda L, dt, p: G.NormalizedConvectionStepper(D, N, normalized_linear_coefficients=G.normalize_coefficients((p[0], p[1], p[2]), domain_extent=L, dt=dt),
                                                                normalized_convection_scale=G.normalize_convection_scale(p[3], domain_extent=L, dt=dt), order=o), times_dt, None))
+    # the conservative / single-channel flags must be passed through by the normalized and difficulty interfaces
+    for flags, lab, Cf in (({"conservative": True}, "conservative", D), ({"single_channel": True}, "single-channel", 1), ({"single_channel": True, "conservative": True}, "single-channel+conservative", 1)):
+        if D == 1 and lab != "single-channel+conservative":
+            continue
+        out.append((f"GeneralConvection({lab})<->Normalized", Cf, 4, lambda L, dt, p, flags=flags: G.GeneralConvectionStepper(D, L, N, dt, linear_coefficients=(p[0], p[1], p[2]), convection_scale=p[3], order=o, **flags),
+                    lambda L, dt, p, flags=flags: G.NormalizedConvectionStepper(D, N, normalized_linear_coefficients=G.normalize_coefficients((p[0], p[1], p[2]), domain_extent=L, dt=dt),
+                                                                   normalized_convection_scale=G.normalize_convection_scale(p[3], domain_extent=L, dt=dt), order=o, **flags), times_dt, None))
+        out.append((f"DifficultyConvection({lab})<->Normalized", Cf, 4, lambda L, dt, p, flags=flags: G.DifficultyConvectionStepper(D, N, linear_difficulties=(p[0], p[1], p[2]), convection_difficulty=p[3], maximum_absolute=1.0, order=o, **flags),
+                    lambda L, dt, p, flags=flags: G.NormalizedConvectionStepper(D, N, normalized_linear_coefficients=G.extract_normalized_coefficients_from_difficulty((p[0], p[1], p[2]), num_spatial_dims=D, num_points=N),
+                                                                   normalized_convection_scale=G.extract_normalized_convection_scale_from_difficulty(p[3], num_spatial_dims=D, num_points=N, maximum_absolute=1.0), order=o, **flags), None, None))
     out.append(("GeneralGradientNorm<->Normalized", 1, 4, lambda L, dt, p: G.GeneralGradientNormStepper(D, L, N, dt, linear_coefficients=(p[0], p[1], p[2]), gradient_norm_scale=p[3], order=o),
                 lambda L, dt, p: G.NormalizedGradientNormStepper(D, N, normalized_linear_coefficients=G.normalize_coefficients((p[0], p[1], p[2]), domain_extent=L, dt=dt),
                                                                  normalized_gradient_norm_scale=G.normalize_gradient_norm_scale(p[3], domain_extent=L, dt=dt), order=o), times_dt, None))
@@ -127,7 +137,13 @@ def _compare(ck, D, N, name, C, npar, mkA, mkB, factor, extra_pre):
     L, dt, p = ins[0].s, ins[1].s, ins[2].sym
     pre = [L > 0, dt > 0] + (extra_pre(p) if extra_pre else [])
     calls = enc.interp.calls["exp"]
-    assert len(calls) % 2 == 0, len(calls)
+    if not linear:
+        _same_integrator(ck, D, N, name, C, npar)
+    # the two constructors run one after the other: first half of the exp calls belongs to A, second half to B
+    if len(calls) % 2 != 0:
+        ck.add(f"{tag}/exp-arg/count", False, [], family=f"{name}: equal exp arguments",
+               replay=_step_replay(D, N, C, npar, mkA, mkB, note=f"the two constructors evaluate {len(calls)} exponentials in total (an odd number: they do not build the same integrator)"))
+        return
     h = len(calls) // 2
     kinds = ["propagator", "half-propagator"] + [f"contour{j}" for j in range(h)]
     for j in range(h):
@@ -144,9 +160,6 @@ def _compare(ck, D, N, name, C, npar, mkA, mkB, factor, extra_pre):
     for i in np.ndindex(enc.outs[0].shape):
         want = enc.outs[0][i] if fac is None else sym.cscale(sym.asc(enc.outs[0][i]), fac)
         ck.add(f"{tag}/nonlinear/{'_'.join(map(str, i))}", sym.equal_goal(enc.outs[1][i], want), pre, family=f"{name}: nonlinear terms agree (documented factor)", replay=_step_replay(D, N, C, npar, mkA, mkB), timeout=120)
-    # static: same integrator class for every order
-    for o in (1, 2, 4):
-        pass
     import random
     from vlib.numeval import NumEval
 
@@ -157,7 +170,24 @@ def _compare(ck, D, N, name, C, npar, mkA, mkB, factor, extra_pre):
         ck.add(f"{tag}/twin", sym.equal_goal(enc.outs[1][i], sym.cscale(sym.asc(enc.outs[0][i]), orc.fl(3))), pre + [p[k] > 0 for k in range(npar)], family="C13/twin", expect="sat", timeout=120)
 
 
-def _step_replay(D, N, C, npar, mkA, mkB):
+def _same_integrator(ck, D, N, name, C, npar):
+    """static part: for every ETDRK order the two interfaces build the same integrator class (the symbolic part traces order 3 only)"""
+    for o in (0, 1, 2, 3, 4):
+        case = next((c for c in pairs(D, N, order=o) if c[0] == name), None)
+        if case is None:
+            continue
+        mkA, mkB = case[3], case[4]
+        p = jnp.asarray([0.3 + 0.1 * k for k in range(npar)])
+        try:
+            A, B = mkA(1.3, 0.02, p), mkB(1.3, 0.02, p)
+            same = type(A._integrator) is type(B._integrator)
+            note = f"order={o}: integrator classes {type(A._integrator).__name__} vs {type(B._integrator).__name__}"
+        except Exception as ex_:  # noqa
+            same, note = False, f"order={o}: construction raises {type(ex_).__name__}: {str(ex_)[:120]}"
+        ck.add(f"{name}/D{D}N{N}/integrator-class/order{o}", bool(same), [], family=f"{name}: same integrator class for every order (static)", replay=_step_replay(D, N, C, npar, mkA, mkB, note=note))
+
+
+def _step_replay(D, N, C, npar, mkA, mkB, note=""):
     def replay(model):
         from fractions import Fraction as F
 
@@ -180,7 +210,7 @@ def _step_replay(D, N, C, npar, mkA, mkB):
             e = float(jnp.max(jnp.abs(a - b)))
             tried.append(f"{e:.3g} at L={L}, dt={dt}, p={np.asarray(p).tolist()}")
             if e > 1e-7 * max(1.0, float(jnp.max(jnp.abs(a)))) or not same:
-                return {"reproduced": True, "detail": f"one step of the two steppers differs by {tried[-1]}; same integrator class: {same}"}
+                return {"reproduced": True, "detail": f"{note + '; ' if note else ''}one step of the two steppers differs by {tried[-1]}; same integrator class: {same}"}
         return {"reproduced": False, "detail": "one step of the two steppers: " + "; ".join(tried)}
 
     return replay
